@@ -37,6 +37,16 @@ inductive Panic where
   | setWithVersion              -- state.rs  `assert!(version > self.max_version)`
   deriving DecidableEq, Repr, Inhabited
 
+/-! ### Stable insertion sort (structural recursion, so that it evaluates inside the kernel) -/
+
+def insertSorted {α : Type} (le : α → α → Bool) (x : α) : List α → List α
+  | [] => [x]
+  | y :: t => if le x y then x :: y :: t else y :: insertSorted le x t
+
+def sortBy {α : Type} (le : α → α → Bool) : List α → List α
+  | [] => []
+  | x :: t => insertSorted le x (sortBy le t)
+
 /-! ### Ordered association lists
 
 `insert` keeps the list sorted by `lt` when it was sorted; `lookup`/`insert`/`erase` satisfy the
